@@ -92,6 +92,8 @@ def uniq(s, n):
 class uniquify:
     props = ['C03']
     params = {'iterable': ListOf(Dyn(('int', 'str', 'none')), maxlen=4)}
+    result = ListOf(Dyn(), kind='tuple')       # callers (execute_select) use this contract, not the generator body
+    modular = True
     loops = {0: dict(inv=lambda iterable, seen, _out, _i:
                      list(_out) == uniq(iterable, _i) and forall(lambda v: (v in seen) == mem(iterable, _i, v)))}
     ensures = [('first-occurrences-in-order', lambda iterable, result: list(result) == uniq(iterable, len(iterable)))]
